@@ -284,7 +284,7 @@ func genC14Ops(concurrent bool) func(rng *Rng, sc *Scenario) {
 			}
 			sc.Clients = append(sc.Clients, cl)
 		}
-		sc.Sites = []string{"cop"}
+		sc.Sites = []string{"cop", "lock"} // "lock": before every acquisition of the cache's lock, wherever it is in the code
 		for _, s := range []string{"cache.lock.len", "cache.lock.set", "cache.lock.get", "cache.lock.delete"} {
 			if rng.Chance(2, 3) {
 				sc.Sites = append(sc.Sites, s)
@@ -448,6 +448,39 @@ func genC14Router(rng *Rng, sc *Scenario) {
 	sc.Sites = GenSites(rng)
 }
 
+// genC14RouterConc: several clients, a cache large enough that nothing is
+// evicted; every request is repeated at once by the same client.
+func genC14RouterConc(rng *Rng, sc *Scenario) {
+	g := NewGen(rng, sc)
+	g.GenShape(ShapeCfg{
+		MaxRoutes: 5, MaxGlobals: 1, GroupChance: [2]int{1, 4},
+		CacheChance: [2]int{1, 1}, Caps: []int{1000},
+		FallbackOpts: true, NoRootGroups: true,
+	})
+	sc.Options.StrictSlash = false
+	n := rng.Range(2, 3)
+	total := 0
+	var prev []Req
+	for t := 0; t < n; t++ {
+		var cl Client
+		for i, k := 0, rng.Range(1, 4); i < k; i++ {
+			rq := g.GenRequest(prev)
+			rq.Path = strings.TrimRight(rq.Path, "/")
+			if rq.Path == "" {
+				rq.Path = "/"
+			}
+			prev = append(prev, rq)
+			cl.Reqs = append(cl.Reqs, rq, rq)
+			total += 2
+		}
+		sc.Clients = append(sc.Clients, cl)
+	}
+	sc.OrderSeed = rng.U64() | 1
+	sc.Pool = GenPool(rng)
+	sc.Sites = append(GenSites(rng), "cache.store", "lock")
+	sc.Schedule, _ = GenSchedule(rng, n, 30*total)
+}
+
 func checkC14Router(sc *Scenario) *CheckOut {
 	out := &CheckOut{Faults: map[string]int64{}}
 	res := RunConcurrent(sc)
@@ -464,11 +497,21 @@ func checkC14Router(sc *Scenario) *CheckOut {
 		return out
 	}
 	nocache := BuildWorld(sc, BuildOpt{NoCache: true})
-	recs := res.Recs[0]
-	out.Requests = len(recs)
 	fail := func(rec *ReqRec, class, format string, a ...any) {
-		out.Viol = append(out.Viol, Violation{"C14", class, fmt.Sprintf("request %d (%s %s), cache capacity %d: ", rec.Idx, rec.Method, rec.Path, sc.Options.Capacity) + fmt.Sprintf(format, a...), ""})
+		out.Viol = append(out.Viol, Violation{"C14", class, fmt.Sprintf("client %d request %d (%s %s), cache capacity %d: ", rec.Task, rec.Idx, rec.Method, rec.Path, sc.Options.Capacity) + fmt.Sprintf(format, a...), ""})
 	}
+	concurrent := len(res.Recs) > 1
+	for _, recs := range res.Recs {
+		out.Requests += len(recs)
+		c14RouterClient(sc, recs, nocache, concurrent, out, fail)
+		if len(out.Viol) > 0 {
+			break
+		}
+	}
+	return out
+}
+
+func c14RouterClient(sc *Scenario, recs []*ReqRec, nocache *World, concurrent bool, out *CheckOut, fail func(*ReqRec, string, string, ...any)) {
 	for i, rec := range recs {
 		route, _, _ := nocache.R.Match(rec.Method, rec.Path)
 		if route == nil || !strings.ContainsAny(route.Path(), "{[") {
@@ -481,7 +524,12 @@ func checkC14Router(sc *Scenario) *CheckOut {
 		if rec.Method == "HEAD" {
 			alt = "GET" + rec.Path // a HEAD request may be resolved through its GET fallback
 		}
-		if rec.CacheKeys == "" || (keys[0] != want && keys[0] != alt) {
+		present := false
+		for _, k := range keys {
+			present = present || k == want || k == alt
+		}
+		// with other requests in flight (and a cache that never evicts) the entry must be present, though not necessarily most recent
+		if (concurrent && !present) || (!concurrent && (rec.CacheKeys == "" || (keys[0] != want && keys[0] != alt))) {
 			fail(rec, "router-key", "resolved to the dynamic route %s, but afterwards the most recent cache key is not %q; keys from most to least recent: [%s]", route.Path(), want, rec.CacheKeys)
 			break
 		}
@@ -494,10 +542,11 @@ func checkC14Router(sc *Scenario) *CheckOut {
 			}
 		}
 	}
-	return out
 }
 
 func init() {
+	register(&Profile{Prop: "C14", Name: "router-concurrent", Quick: 9000, Thorough: 200000, Gen: genC14RouterConc, Check: checkC14Router,
+		Rule: "a history is non-trivial when at least one request resolved to a dynamic route on the caching router"})
 	register(&Profile{Prop: "C14", Name: "lru-sequential", Quick: 60000, Thorough: 1500000, Gen: genC14Ops(false), Check: checkC14Ops,
 		Rule: "a history is non-trivial when it has at least three operations"})
 	register(&Profile{Prop: "C14", Name: "lru-concurrent", Quick: 18000, Thorough: 300000, Gen: genC14Ops(true), Check: checkC14Ops,
